@@ -22,6 +22,9 @@ RULE = (
 RULE += (
     " Also NAMECLASH: a function whose name is also a device name string, a word of one, a hashed string, a logic type, a slot type or a batch method used in the same program (10 names x up to 9 uses x 3 placements); the relation oracle resolves a label only in jump-target operands and in the source operand of 'move'."
 )
+RULE += (
+    " NAMECLASH also has strings that contain '#' on branch lines, while tests and device names."
+)
 ASSUME = [
     "reference IC10 machine M and reference executor R as in C01; M resolves labels by exact token match (never by regex)",
     "in an operand position that takes a logic type / slot type / batch method, M reads a name as the enumeration member even if a label of the same spelling exists (function named 'Setting')",
